@@ -126,7 +126,7 @@ func init() {
 		ex.memo["b64dec:"+c.parts[1].String()] = BytesV{T: payload}
 		ex.memo["carrier:"+c.tok.String()] = &carrierBox{c}
 		ex.memo["signedby:"+c.tok.String()] = so.Attrs["keyid"]
-		ex.assume(Ge(SeqLen(c.tok), IntLit(5)))
+		ex.assume(Not(Eq(c.tok, StrLit(""))))
 		if d, ok := ex.docOf(payload); ok {
 			c.claims = d.src
 		}
@@ -142,7 +142,7 @@ func init() {
 		ex.counters["aesiv"]++
 		iv := ex.fresh(fmt.Sprintf("aes.iv%d", k), SSeq, "env")
 		enc := UF("aes.enc", SSeq, a[0].(*Term), a[1].(*Term), iv)
-		ex.assume(Ge(SeqLen(enc), IntLit(22))) // base64 of at least one AES block
+		ex.assume(Not(Eq(enc, StrLit(""))))
 		return Tuple{enc, Iface{}}
 	})
 	reg(cryptoPkg+".DecryptAES", func(ex *Exec, fn *ssa.Function, a []Value) Value {
